@@ -134,6 +134,16 @@ if [ "$PROP" = "C18" ] && [ "$TIER" = "thorough" ] && [ $rc -eq 0 ] && [ "${VERI
   for target in FuzzC18Date FuzzC18Roman FuzzC18Sem FuzzC18Size FuzzC18UU; do
     (cd "$ROOT/harness" && timeout -s KILL 3600 go test "${MODFLAG[@]}" -run='^$' -fuzz="^${target}\$" -fuzztime="${FUZZN}x" ./cmd/mon) > "$FUZZLOG" 2>&1
     frc=$?
+    if [ $frc -ne 0 ] && ! grep -qE "C18 monitor:|panic:|fatal error:" "$FUZZLOG"; then
+      # the fuzzing engine gave up on a worker ("hung or terminated unexpectedly") without any report from the monitor or
+      # the runtime: on a machine busy with other work its workers are starved. The input it blames is kept aside and the
+      # target is run once more; only a second failure of this kind makes the run inconclusive.
+      crasher="$(ls -t "$ROOT/harness/cmd/mon/testdata/fuzz/$target/"* 2>/dev/null | head -1)"
+      [ -n "$crasher" ] && rm -f "$crasher"
+      echo "fuzz $target: engine failure without a report (starved worker?), running the target once more"
+      (cd "$ROOT/harness" && timeout -s KILL 3600 go test "${MODFLAG[@]}" -run='^$' -fuzz="^${target}\$" -fuzztime="${FUZZN}x" -parallel=8 ./cmd/mon) > "$FUZZLOG" 2>&1
+      frc=$?
+    fi
     last="$(grep -E '^fuzz: elapsed' "$FUZZLOG" | tail -1)"
     execs="$(echo "$last" | sed -nE 's/.*execs: ([0-9]+).*/\1/p')"; interesting="$(echo "$last" | sed -nE 's/.*total: ([0-9]+).*/\1/p')"
     echo "fuzz $target: rc=$frc execs=${execs:-0} corpus=${interesting:-0}"
